@@ -77,6 +77,15 @@ fn fwd(op: &Op, _ctx: &dyn Context, operands: &mut dyn CoordinateSet) -> usize {
 
         let easting = x_0 + (b * d) * (cos_xi * sin_lon);
         let northing = y_0 + (b / d) * (cos_xi_0 * sin_xi - sin_xi_0 * cos_xi * cos_lon);
+
+        // At the antipode of the centre (and within rounding distance of it), `factor`
+        // vanishes: That point has no image - it is the entire rim of the disc. Signal that
+        // (and infinite coordinates) while a NaN coordinate just propagates, as everywhere else
+        if !(easting.is_finite() && northing.is_finite()) && !(lon.is_nan() || lat.is_nan()) {
+            operands.set_xy(i, f64::NAN, f64::NAN);
+            continue;
+        }
+
         operands.set_xy(i, easting, northing);
         successes += 1;
     }
